@@ -572,16 +572,30 @@ Qed.
 (* ------------------------------------------------------------------------------------------ *)
 
 Theorem amp_judge_parts : forall case out, e2e_amp_judge case out = true ->
-  exists rws, take_rows 7 (nz out 8) (skipn 9 out) = Some (rws, []) /\
+  exists rws, take_rows 7 (nz out 8) (skipn 10 out) = Some (rws, []) /\
     nz out 6 = 0 /\
-    amp_scan (nz out 1) (nz out 2) [] 0 0 false (map mk_wrec rws) = true.
+    amp_scan (nz out 1) (nz out 2) [] 0 0 false (amp_log1 (nz out 9) (map mk_wrec rws)) = true /\
+    (nz out 9 <> -1 ->
+     amp_scan (nz out 1) (nz out 9) [] 0 0 false (amp_log2 (nz out 2) (nz out 9) (map mk_wrec rws)) = true).
 Proof.
   intros case out H. unfold e2e_amp_judge in H.
   destruct (negb _); [discriminate|].
-  destruct (take_rows 7 (nz out 8) (skipn 9 out)) as [[rws rest]|]; [|discriminate].
+  destruct (take_rows 7 (nz out 8) (skipn 10 out)) as [[rws rest]|]; [|discriminate].
   destruct rest; [|discriminate].
-  rewrite andb_true_iff in H. destruct H as [A B]. apply Z.eqb_eq in A.
-  exists rws. auto.
+  repeat rewrite andb_true_iff in H. destruct H as [[A B] C]. apply Z.eqb_eq in A.
+  exists rws. split; [reflexivity|]. split; [exact A|]. split; [exact B|].
+  intros N. rewrite orb_true_iff in C. destruct C as [C|C]; [apply Z.eqb_eq in C; contradiction | exact C].
+Qed.
+
+(* the second log keeps exactly the rows that do not involve the first client address (and the
+   first address-validated marker, neutralised), with the path-validated marker of the second
+   address turned into the address-validated marker *)
+Theorem amp_log2_rows : forall cli cli2 l e', In e' (amp_log2 cli cli2 l) ->
+  exists e, In e l /\ e' = remark cli2 e /\ (involves cli e = false \/ w_kind e = 2).
+Proof.
+  intros cli cli2 l e' H. unfold amp_log2 in H. apply in_map_iff in H. destruct H as [e [E Hin]].
+  apply filter_In in Hin. destruct Hin as [Hin F]. exists e. split; [exact Hin|]. split; [symmetry; exact E|].
+  rewrite orb_true_iff in F. destruct F as [F|F]; [left; apply negb_true_iff in F; exact F | right; apply Z.eqb_eq in F; exact F].
 Qed.
 
 Theorem inject_judge_parts : forall case out, e2e_inject_judge case out = true ->
@@ -1160,35 +1174,46 @@ Proof.
       eapply IH; eauto. intros o Ho. apply Hpre. right. exact Ho.
 Qed.
 
-(* a reduction of the reported window is the first one, or follows the acknowledgement of a
-   packet sent after the previous reduction, or goes to the minimum window (persistent congestion) *)
+(* in a batch that lost a congestion controlled packet while a recovery period lasts, the
+   reported window is not a multiplicative decrease of the previous one, or is at the minimum *)
 Theorem once_reduction_sound : forall s r, once_check s r = true ->
-  x_k r = 3 -> g_a r < o_cwnd s -> o_cong s = true ->
-  o_red_t s = -1 \/ o_red_ok s = true \/ g_a r <= 2 * o_mtu s.
+  x_k r = 3 -> o_lost s = true -> 0 <= o_rec s ->
+  is_md (o_cwnd s) (g_a r) = false \/ g_a r <= 2 * o_mtu s.
 Proof.
-  intros s r H K L C. unfold once_check, is_reduction in H. rewrite K in H. rewrite Z.eqb_refl in H.
-  apply Z.ltb_lt in L. rewrite L, C in H. cbn [andb] in H.
-  repeat rewrite orb_true_iff in H. destruct H as [[H|H]|H].
-  - left. apply Z.eqb_eq in H. exact H.
-  - right. left. exact H.
-  - right. right. apply Z.leb_le in H. exact H.
+  intros s r H K L R. unfold once_check in H. rewrite K, L in H. rewrite Z.eqb_refl in H.
+  apply Z.leb_le in R. rewrite R in H. cbn [andb] in H.
+  rewrite orb_true_iff in H. destruct H as [H|H]; [left; apply negb_true_iff; exact H | right; apply Z.leb_le; exact H].
 Qed.
 
-(* the flag o_red_ok is raised only by an ACK range that covers an unacknowledged packet sent
-   strictly after the last reduction, and a reduction clears it *)
-Theorem once_flag_rule : forall s r, o_red_ok (once_upd s r) = true -> o_red_ok s = false ->
-  x_k r = 1 /\ exists u, In u (o_sent s) /\ o_cov (g_x r) (g_a r) (g_b r) u = true /\ o_red_t s < snd u.
+(* how the recovery period evolves at the end of a batch *)
+Theorem once_period_rule : forall s r, x_k r = 3 ->
+  let s' := once_upd s r in
+  (* it starts only with a congestion controlled loss outside a period and a multiplicative
+     decrease of the window, at the time of the batch *)
+  (o_rec s < 0 -> 0 <= o_rec s' ->
+     o_lost s = true /\ is_md (o_cwnd s) (g_a r) = true /\ o_rec s' = g_time r) /\
+  (* and once started it ends only by the acknowledgement of a packet sent after its start, or
+     with the window at the minimum after a loss *)
+  (0 <= o_rec s -> o_rec s' < 0 ->
+     o_rec s < o_ack_t s \/ (o_lost s = true /\ g_a r <= 2 * o_mtu s)).
 Proof.
-  intros s r H N. unfold once_upd in H.
-  destruct (Z.eqb_spec (x_k r) 0). { cbn [o_red_ok] in H. congruence. }
-  destruct (Z.eqb_spec (x_k r) 1) as [K|K].
-  { cbn [o_red_ok] in H. rewrite N in H. cbn [orb] in H. apply existsb_exists in H.
-    destruct H as [u [Hu Hc]]. rewrite andb_true_iff in Hc. destruct Hc as [C1 C2]. apply Z.ltb_lt in C2.
-    split; [exact K|]. exists u. auto. }
-  destruct (Z.eqb_spec (x_k r) 3). { cbn [o_red_ok] in H. destruct ((g_a r <? o_cwnd s) && o_cong s); congruence. }
-  destruct (Z.eqb_spec (x_k r) 5). { cbn [o_red_ok] in H. congruence. }
-  destruct (Z.eqb_spec (x_k r) 6). { cbn [o_red_ok] in H. congruence. }
-  congruence.
+  intros s r K. cbn zeta. unfold once_upd. rewrite K.
+  change (3 =? 0) with false. change (3 =? 1) with false. change (3 =? 2) with false.
+  rewrite Z.eqb_refl. cbn iota. cbn [o_rec]. split.
+  - intros N P. destruct (o_lost s) eqn:L; cbn [andb] in *.
+    + apply Z.ltb_lt in N. rewrite N in *. cbn [andb] in *.
+      destruct (is_md (o_cwnd s) (g_a r)) eqn:M.
+      * destruct ((0 <=? g_time r) && (g_time r <? o_ack_t s)); [destruct (g_a r <=? 2 * o_mtu s); lia|].
+        destruct (g_a r <=? 2 * o_mtu s); [lia | auto].
+      * apply Z.ltb_lt in N.
+        destruct ((0 <=? o_rec s) && (o_rec s <? o_ack_t s)); destruct (g_a r <=? 2 * o_mtu s); lia.
+    + destruct ((0 <=? o_rec s) && (o_rec s <? o_ack_t s)); lia.
+  - intros P N. assert (P' : (o_rec s <? 0) = false) by (apply Z.ltb_ge; exact P).
+    rewrite P' in N. rewrite andb_false_r in N. cbn [andb] in N.
+    destruct ((0 <=? o_rec s) && (o_rec s <? o_ack_t s)) eqn:E.
+    + left. rewrite andb_true_iff in E. destruct E as [_ E]. apply Z.ltb_lt in E. exact E.
+    + destruct (o_lost s) eqn:L; cbn [andb] in N; [|lia].
+      destruct (Z.leb_spec (g_a r) (2 * o_mtu s)); [right; auto | lia].
 Qed.
 
 (* ------------------------------------------------------------------------------------------ *)
